@@ -22,6 +22,16 @@ HISTORY = {
     'R3-H': 'third round (area: authenticateOrigin). First trial: MISSED → origin patterns that carry a scheme and origins with the authorised suffix in their query / fragment added to the hs-accept grid',
     'R3-I': 'third round (area: handshakeRequest). First trial: MISSED → hs-dial re-uses the caller\'s `HTTPHeader` map after an earlier Dial with other options and checks that Dial leaves it untouched (`hs-dial:caller-headers-modified`)',
     'R3-J': 'third round (area: netconn close / EOF translation). First trial: MISSED → netconn kinds `drop` (transport EOF / failure / protocol error without a Close frame must not read as io.EOF) and an `eof` flag on interrupted calls',
+    'R4-K': 'fourth round (area: rendering of the negotiated extension); caught at the first trial',
+    'R4-L': 'fourth round (area: verifySubprotocol); caught at the first trial (multi-valued Sec-WebSocket-Protocol responses are in the hs-dial grid)',
+    'R4-M': 'fourth round (area: ping counter); caught at the first trial (`ping:payloads-not-distinct`)',
+    'R4-N': 'fourth round (area: handleControl). First trial: MISSED → ping-suite reaction `q`: the peer sends a PING with the payload of the outstanding ping; it must be answered, not taken for the Pong',
+    'R4-O': 'fourth round (area: readLoop RSV1 rule); caught at the first trial',
+    'R4-P': 'fourth round (area: ensureFlate / writer reset); caught at the first trial by pair and wire-out',
+    'R4-Q': 'fourth round (area: deadline reset with the zero time); caught at the first trial (the `idle-*` cases reset the deadline and call again)',
+    'R4-R': 'fourth round (area: closeHandshake result); caught at the first trial',
+    'R4-S': 'fourth round (area: wsjson.Write). First trial: MISSED → wsjson kind `rawwrite` (nil / malformed / valid / nested json.RawMessage values)',
+    'R4-T': 'fourth round (area: method check of verifyClientRequest); caught at the first trial',
     'R2-C19': 'second round. Caught at the first trial, but only by chance (two wsjson cases of the same run happened to share the doubly pooled buffer): the final regression over all seeded changes missed it once → wsjson kind `overlap` (a rejected document, then two overlapping reads on other connections under GOMAXPROCS(1)) makes it deterministic',
     'R2-C04': 'second round, first trial: MISSED (the sweep of cut offsets used only 7-bit frame lengths) → header-region cut sweep over every length encoding and order (16-bit first on a fresh connection, after a 64-bit one, after a multiple of 256), both roles, both endings',
     'R2-C07': 'second round, first trial: MISSED (the suite always read a message to its end before the next one) → histories that start the next message after reading only a prefix of a small compressed one (`msgnf` / `plainnf`); the replay then reports `put-by-non-holder`',
@@ -35,7 +45,7 @@ HISTORY = {
 }
 print('| seeded change (property it breaks) | what it does | what it needs to show | confirmed | checks run on it → result (current machinery) | history |')
 print('|---|---|---|---|---|---|')
-for d in sorted(glob.glob(os.path.join(ROOT, 'seeded', 'C*'))) + sorted(glob.glob(os.path.join(ROOT, 'seeded', 'R2-C*'))) + sorted(glob.glob(os.path.join(ROOT, 'seeded', 'R3-*'))):
+for d in sorted(glob.glob(os.path.join(ROOT, 'seeded', 'C*'))) + sorted(glob.glob(os.path.join(ROOT, 'seeded', 'R2-C*'))) + sorted(glob.glob(os.path.join(ROOT, 'seeded', 'R3-*'))) + sorted(glob.glob(os.path.join(ROOT, 'seeded', 'R4-*'))):
     sid = os.path.basename(d)
     try:
         meta = json.load(open(os.path.join(d, 'meta.json')))
